@@ -18,6 +18,7 @@ package main
 import (
 	"context"
 	"fmt"
+	"math/rand"
 	"strings"
 
 	"verif/core"
@@ -147,6 +148,91 @@ func run(c *core.Ctx) error {
 		}
 		c.Logf("%s: %d schedules replayed, %d drifted", sc.Name, len(bhs), drifts)
 	}
+	return randomTraces(c, r)
+}
+
+// randomTraces: larger configurations than can be exported exhaustively are run
+// under a seeded random scheduler; the recorded storage-level traces are validated
+// by TLC against Journal.tla (JournalTrace.tla) and the oracles are evaluated.
+func randomTraces(c *core.Ctx, r *jrun.Runner) error {
+	mk := func(name, journal string, init map[string]int, script ...[]lakeh.JOp) *lakeh.JScenario {
+		inv := []string{"TypeOK", "HeadHint", "NotStuck", "ChainOK", "InsertOK", "DeleteOK", "MoveOK", "JournalReplayable", "AckedOnce", "NoOrphanOnFail", "AckedCommitStored", "SingleChain"}
+		return &lakeh.JScenario{Name: name, Journal: journal, Script: script, Init: init, MaxRetries: 10, MaxCommitRetries: 10,
+			PreemptBound: 99, MoveChecksID: true, Invariants: inv}
+	}
+	scs := []*lakeh.JScenario{
+		mk("rnd_commits", "branches", map[string]int{"main": 0, "b1": 0},
+			[]lakeh.JOp{tip("main"), tip("b1"), tip("main")}, []lakeh.JOp{tip("main"), tip("main")},
+			[]lakeh.JOp{ins("b2"), tip("b2"), rmkey("b1")}, []lakeh.JOp{tip("b1"), tip("main")}),
+		mk("rnd_pools", "pools", map[string]int{"p": 1, "q": 2},
+			[]lakeh.JOp{ins("x"), ren(2, "y")}, []lakeh.JOp{rmid(2), ins("q"), ins("x")}, []lakeh.JOp{ren(1, "x"), ren(1, "p2")}),
+	}
+	n := 12
+	if !c.Quick() {
+		n = 300
+	}
+	for _, sc := range scs {
+		rng := rand.New(rand.NewSource(c.Seed*7919 + 12))
+		r.Rand = rng
+		var traces [][]lakeh.GateStep
+		for i := 0; i < n; i++ {
+			results, fails, _, err := r.Execute(sc, nil, nil)
+			if err != nil {
+				return fmt.Errorf("%s random run %d: %w", sc.Name, i, err)
+			}
+			tr := append([]lakeh.GateStep(nil), r.LastTrace...)
+			traces = append(traces, tr)
+			c.Eval(sc.Name+"|rnd|"+lakeh.SchedKey(tr), true)
+			for _, f := range fails {
+				c.Violate(sigOf(f)+":"+sc.Name, fmt.Sprintf("%s [scenario %s, random schedule %s]", f, sc.Name, lakeh.SchedKey(tr)),
+					jrun.Witness{Scenario: sc, Sched: tr, Results: results, Detail: f})
+			}
+		}
+		// validate in batches so that a rejection can be attributed
+		batch := 12
+		for i := 0; i < len(traces); i += batch {
+			j := i + batch
+			if j > len(traces) {
+				j = len(traces)
+			}
+			ok, matched, res, err := sc.TraceCheck(c, traces[i:j])
+			switch {
+			case err != nil:
+				c.Inconclusive("trace validation of %s: %v", sc.Name, err)
+			case ok:
+				c.Add("traces_validated_against_impl", int64(j-i))
+				c.Add("trace_events_validated", int64(matched))
+			default:
+				c.Drift("%s: TLC does not accept recorded traces %d..%d as behaviours of Journal.tla (%s %s, %d events matched)", sc.Name, i, j-1, res.Status, res.Violated, matched)
+			}
+		}
+		// binding self-test: a corrupted trace (one put-if-absent outcome flipped) must be rejected
+		if len(traces) > 0 {
+			bad := append([]lakeh.GateStep(nil), traces[0]...)
+			for i := range bad {
+				if bad[i].Lbl == "cas" {
+					if bad[i].R == "ok" {
+						bad[i].R = "exists"
+					} else {
+						bad[i].R = "ok"
+					}
+					break
+				}
+			}
+			if ok, _, _, err := sc.TraceCheck(c, [][]lakeh.GateStep{bad}); err == nil {
+				if ok {
+					c.Inconclusive("%s: a corrupted trace was accepted by JournalTrace.tla: the trace spec does not bind", sc.Name)
+				} else {
+					c.Add("corrupted_traces_rejected", 1)
+				}
+			}
+		}
+		c.Logf("%s: %d random schedules executed and validated against Journal.tla", sc.Name, len(traces))
+		if len(traces) > 0 {
+			c.Sample(map[string]any{"scenario": sc.Name, "random_trace": traces[0]})
+		}
+	}
+	r.Rand = nil
 	return nil
 }
 
